@@ -21,6 +21,7 @@ import (
 	"path/filepath"
 	"runtime/debug"
 	"sort"
+	"strings"
 	"time"
 
 	webp "github.com/deepteams/webp"
@@ -338,7 +339,11 @@ func buildSeeds(rng *Rand) []seed {
 	return seeds
 }
 
-var lenEdits = []uint32{0, 1, 3, 4, 7, 8, 1 << 31, 1<<32 - 1}
+var lenEdits = []uint32{0, 1, 3, 4, 7, 8, 1 << 31, 1<<32 - 1, 0xFFFFFFF6, 0xFFFFFFF7, 0xFFFFFFF8, 0x7FFFFFFF, 1 << 24}
+
+// sizeBoundaries: around MaxChunkPayload (0xFFFFFFF6), uint32 max, int32 max, 2^24
+var sizeBoundaries = []uint32{0xFFFFFFF5, 0xFFFFFFF6, 0xFFFFFFF7, 0xFFFFFFF8, 0xFFFFFFF9, 0xFFFFFFFE, 0xFFFFFFFF,
+	0x7FFFFFFE, 0x7FFFFFFF, 0x80000000, 0x80000001, 1<<24 - 1, 1 << 24, 1<<24 + 1}
 
 // chunkOffsets returns the offsets of chunk headers (top level and inside ANMF).
 func chunkOffsets(b []byte) []int {
@@ -581,7 +586,7 @@ func main() {
 			fmt.Sprintf("pixel-decoding entry points are skipped when any header in the input declares more than %d pixels (counted as skipped-declared-large)", maxDeclaredArea))
 
 		witness := []byte("RIFF\x02\x00\x00\x00WEBPVP8 ")
-		total := 8000
+		total := 6500
 		if c.Thorough() {
 			total = 60000
 		}
@@ -615,6 +620,53 @@ func main() {
 			evalInput(c, "foreign-vp8l", b)
 		}
 		c.Count(fmt.Sprintf("foreign-vp8l-files=%d", len(foreign)))
+		// deterministic size-boundary corpus: every chunk header (top level and inside ANMF) of one
+		// seed of each kind, and synthetic one-chunk files of every chunk kind, with the size field at
+		// each boundary of the uint32 / MaxChunkPayload / int32 / 24-bit arithmetic
+		nb := 0
+		seenKind := map[string]bool{}
+		for _, sd := range seeds {
+			if seenKind[sd.name] {
+				continue
+			}
+			seenKind[sd.name] = true
+			for _, off := range chunkOffsets(sd.data) {
+				for _, v := range sizeBoundaries {
+					b := append([]byte{}, sd.data...)
+					binary.LittleEndian.PutUint32(b[off+4:], v)
+					evalInput(c, "size-boundary", b)
+					nb++
+				}
+			}
+		}
+		for _, tag := range []string{"VP8 ", "VP8L", "VP8X", "ALPH", "ANIM", "ANMF", "ICCP", "EXIF", "XMP ", "UNKN"} {
+			for _, v := range sizeBoundaries {
+				for _, extra := range []int{0, 1, 10, 18} {
+					b := append([]byte("RIFF\x00\x00\x00\x00WEBP"), []byte(tag)...)
+					b = append(b, 0, 0, 0, 0)
+					binary.LittleEndian.PutUint32(b[16:], v)
+					for k := 0; k < extra; k++ {
+						b = append(b, byte(0x2f+k))
+					}
+					binary.LittleEndian.PutUint32(b[4:], uint32(len(b)-8))
+					evalInput(c, "size-boundary", b)
+					nb++
+					// the same chunk as the second one of an extended file / inside an ANMF payload
+					if extra == 10 {
+						x := append([]byte("RIFF\x00\x00\x00\x00WEBPVP8X\x0a\x00\x00\x00\x02\x00\x00\x00\x03\x00\x00\x03\x00\x00"), b[12:]...)
+						binary.LittleEndian.PutUint32(x[4:], uint32(len(x)-8))
+						evalInput(c, "size-boundary", x)
+						y := append([]byte("RIFF\x00\x00\x00\x00WEBPVP8X\x0a\x00\x00\x00\x02\x00\x00\x00\x03\x00\x00\x03\x00\x00ANMF\x00\x00\x00\x00"+
+							"\x00\x00\x00\x00\x00\x00\x03\x00\x00\x03\x00\x00\x0a\x00\x00\x00"), b[12:]...)
+						binary.LittleEndian.PutUint32(y[34:], uint32(len(y)-38))
+						binary.LittleEndian.PutUint32(y[4:], uint32(len(y)-8))
+						evalInput(c, "size-boundary", y)
+						nb += 2
+					}
+				}
+			}
+		}
+		c.Count(fmt.Sprintf("size-boundary-inputs=%d", nb))
 		for i := 0; i < total; i++ {
 			var kind string
 			var b []byte
@@ -626,6 +678,47 @@ func main() {
 			evalInput(c, kind, b)
 		}
 	})
+}
+
+func hexOrDash(b []byte) string {
+	if len(b) == 0 {
+		return "-"
+	}
+	return hex.EncodeToString(b)
+}
+
+func readChunkLine(c *Ctx, b []byte, hx, kind string) (line string) {
+	h, r := "", ""
+	func() {
+		defer func() {
+			if e := recover(); e != nil {
+				h = "panic"
+				c.Violate("panic-ReadChunkHeader", fmt.Sprint(e), map[string]any{"input_hex": truncate(hx, 4000), "mutation": kind})
+			}
+		}()
+		id, sz, err := mux.ReadChunkHeader(b)
+		if err != nil {
+			h = "err"
+		} else {
+			h = fmt.Sprintf("ok %d %d", id, sz)
+		}
+	}()
+	func() {
+		defer func() {
+			if e := recover(); e != nil {
+				r = "panic"
+				c.Violate("panic-ReadChunk", fmt.Sprint(e), map[string]any{"input_hex": truncate(hx, 4000), "mutation": kind})
+			}
+		}()
+		ch, n, err := mux.ReadChunk(b)
+		if err != nil {
+			r = "err"
+		} else {
+			r = fmt.Sprintf("ok %d %d %s %d", ch.ID, ch.Size, muxh.FmtBytes(ch.Data), n)
+		}
+	}()
+	c.Count("ReadChunk-" + strings.SplitN(r, " ", 2)[0])
+	return "H=" + h + " C=" + r
 }
 
 func isRiffSizeClass(b []byte) bool {
@@ -643,6 +736,15 @@ func evalInput(c *Ctx, kind string, b []byte) {
 	line, _ := muxh.DemuxLine(b)
 	c.Case("demux "+hx, line)
 	c.Count("demux-" + line[:minInt(len(line), 5)])
+
+	// mux.ReadChunkHeader / mux.ReadChunk called directly on the payload after the RIFF header
+	// (and on the raw input), under recover; compared with the model's read_chunk
+	for _, at := range []int{12, 0} {
+		if at > len(b) || (at == 0 && kind != "size-boundary" && kind != "random") {
+			continue
+		}
+		c.Case("rchunk "+hexOrDash(b[at:]), readChunkLine(c, b[at:], hx, kind))
+	}
 
 	big := declaredArea(b) > maxDeclaredArea
 	vec := ""
